@@ -28,6 +28,7 @@ struct Batch {
     q: String,
     incarnation: u64,
     recs: Vec<(u64, Vec<u8>)>,
+    call: usize,
 }
 
 fn flip(rng: &mut Rng, bytes: &[u8]) -> Vec<u8> {
@@ -155,7 +156,7 @@ pub fn case_damage(scratch: &Path, meta: usize, id: &str, seed: u64, len: usize,
                     rec_call.insert((q.clone(), aq.incarnation, *p), call);
                 }
                 if new.len() >= 2 {
-                    batches.push(Batch { q: q.clone(), incarnation: aq.incarnation, recs: new.to_vec() });
+                    batches.push(Batch { q: q.clone(), incarnation: aq.incarnation, recs: new.to_vec(), call });
                 }
             }
         }
@@ -180,6 +181,7 @@ pub fn case_damage(scratch: &Path, meta: usize, id: &str, seed: u64, len: usize,
         let mut aimed = false;
         let mut class = "none";
         let mut forged_max = false;
+        let mut forged_boundary = false;
         let mut ops: Vec<Op> = Vec::new();
         if replay.is_some() {
             ops = fixed_variants[v].clone();
@@ -197,7 +199,7 @@ pub fn case_damage(scratch: &Path, meta: usize, id: &str, seed: u64, len: usize,
                 }
             }
         } else {
-            let k = if aimed_only { rng.below(3) } else { rng.below(14) };
+            let k = if aimed_only { rng.below(3) } else { rng.below(16) };
             if k < 3 && !live_frames.is_empty() {
                 // aimed: payload or checksum bytes of one frame
                 let fr = if sweep { live_frames[v * live_frames.len() / variants].clone() } else { rng.pick(&live_frames).clone() };
@@ -281,6 +283,48 @@ pub fn case_damage(scratch: &Path, meta: usize, id: &str, seed: u64, len: usize,
                 let f2 = *rng.pick(&files);
                 ops.push(Op::CopyBlock { f1, i1: rng.below(4), f2, i2: rng.below(4) });
                 class = "transpose_block";
+            } else if k >= 14 {
+                // the last frame of a batch rewritten in place as a VALID frame (same type, correct
+                // checksum) carrying fewer bytes: the reassembled entry is cut `kcut` bytes short.
+                // Unless the cut falls on a record boundary (then the image is that of a shorter
+                // batch) the batch must come back whole or not at all
+                let cands: Vec<&Batch> = batches.iter().filter(|b| live_frames.iter().any(|f| f.call == b.call)).collect();
+                if !cands.is_empty() {
+                    let bt = *rng.pick(&cands);
+                    let fr = live_frames.iter().filter(|f| f.call == bt.call).max_by_key(|f| (f.file, f.off)).unwrap().clone();
+                    let c = content(fr.file);
+                    let l = fr.len - 7;
+                    let last_len = bt.recs.last().map(|r| r.1.len() as u64).unwrap_or(0);
+                    let kcut = match rng.below(6) {
+                        0 => 1 + rng.below(11),
+                        1 => last_len + 1 + rng.below(11),
+                        2 => last_len + 12,
+                        3 => last_len + 13,
+                        4 => 1 + rng.below(l.max(1)),
+                        _ => last_len.saturating_sub(rng.below(3)).max(1),
+                    }
+                    .min(l)
+                    .max(1);
+                    if l >= 1 && (fr.off + fr.len) as usize <= c.len() {
+                        let ty = c[fr.off as usize + 6];
+                        let keep = &c[fr.off as usize + 7..(fr.off + 7 + l - kcut) as usize];
+                        let mut data = crate::bytes::frame(ty, keep, None, false);
+                        data.extend(std::iter::repeat(0u8).take(kcut as usize));
+                        ops.push(Op::Poke { file: fr.file, off: fr.off, data });
+                        // record boundaries counted from the end of the entry
+                        let mut acc = 0u64;
+                        let mut boundary = false;
+                        for rc in bt.recs.iter().rev() {
+                            acc += 12 + rc.1.len() as u64;
+                            if acc == kcut {
+                                boundary = true;
+                            }
+                        }
+                        forged_boundary = boundary;
+                        r.stats.inc(if boundary { "damage.forged_cut.at_record_boundary" } else { "damage.forged_cut.inside_record" });
+                    }
+                }
+                class = "forged_cut";
             } else {
                 // a forged, CRC-valid frame holding a hostile entry, placed where the log ends
                 let (cf, co) = r.real.cursor;
@@ -313,7 +357,7 @@ pub fn case_damage(scratch: &Path, meta: usize, id: &str, seed: u64, len: usize,
                 class = "forged_entry";
             }
             // damage at several sites: a second and sometimes a third independent overwrite
-            if !aimed_only && class != "forged_entry" && !files.is_empty() && rng.chance(1, 4) {
+            if !aimed_only && class != "forged_entry" && class != "forged_cut" && !files.is_empty() && rng.chance(1, 4) {
                 for _ in 0..(1 + rng.below(2)) {
                     let f = *rng.pick(&files);
                     let flen = content(f).len() as u64;
@@ -356,7 +400,7 @@ pub fn case_damage(scratch: &Path, meta: usize, id: &str, seed: u64, len: usize,
         });
         // forged frames are CRC "collisions" by construction: outside C08/C12; they probe C10,
         // where only positions at the top of the u64 range are known to panic (finding F4)
-        let forged = class == "forged_entry";
+        let forged = class == "forged_entry" || (class == "forged_cut" && forged_boundary);
         let in_place = in_place && !forged;
         let tag = if copies_valid { "[replayed-valid-frames] " } else if forged && forged_max { "[position bound 2^64-1] " } else { "" };
         let ctx = format!("{}damage variant {} ({}; {})", tag, v, class, ops.iter().map(|o| { let l = o.line(); l[..l.len().min(60)].to_string() }).collect::<Vec<_>>().join(" + "));
